@@ -156,7 +156,7 @@ def run(ctx):
         ctx.sample({"n": c["n"], "family": c["family"], "failFast": c["failFast"], "workers": c["workers"], "trace_head": o.get("trace", [])[:8]})
     run_cli(ctx)
     # ---- broad randomized CLI worlds (shared generator; all oracles run, the C03-owned ones are reported here) ----
-    results, cov = _cliworld.run_worlds(ctx, 24 if quick else 300, "C03")
+    results, cov = _cliworld.run_worlds(ctx, 30 if quick else 300, "C03")
     _cliworld.report(ctx, results, cov, "C03")
     ctx.coverage["evaluations"] += ctx.coverage.get("cli_builds", 0) + ctx.coverage.get("oncomplete_step_cases", 0)
     if disagreements and not ctx.violations:
@@ -304,6 +304,8 @@ def run_cli(ctx):
 
 
 def replay(ctx, rep):
+    if "world" in rep:
+        return _cliworld.replay(ctx, rep)
     c = rep.get("case")
     if rep.get("build"):
         b = rep["build"]
